@@ -3891,6 +3891,13 @@ func (c *Compiler) setWasmGlobalValue(index wasm.Index, v ssa.Value) {
 		store.AsStore(ssa.OpcodeStore, v, loadGlobalInstPtr.Return(), uint32(0))
 		builder.InsertInstruction(store)
 
+		// One exported global can be imported more than once, so any other imported mutable global may be
+		// an alias of this one: the values recorded for them are no longer known.
+		for _, other := range c.mutableGlobalVariablesIndexes {
+			if other != index && other < c.m.ImportGlobalCount {
+				_ = c.getWasmGlobalValue(other, true)
+			}
+		}
 	} else {
 		store := builder.AllocateInstruction()
 		store.AsStore(ssa.OpcodeStore, v, c.moduleCtxPtrValue, uint32(opaqueOffset))
